@@ -30,7 +30,7 @@ TECHNIQUE = "deterministic simulation: frozen peer, bulk read vs single read for
 FILLS = [("zero", 0), ("ff", 0), ("bound", 1), ("bound", 2), ("hash", 1), ("hash", 2), ("step", 3), ("step", 4),
          ("sp32a", 1), ("sp32b", 1)]
 HISTORIES = ["plain", "battery_off_on", "battery_on_off", "single_first", "before_info", "settings_first",
-             "refused_block_first"]
+             "refused_block_first", "settings_refused_first"]
 REPS = {"quick": 1, "thorough": 48}
 _SPACE = {}
 
@@ -168,6 +168,17 @@ def run_case(case):
                                 f"(its block is refused by this inverter and no bulk read has pruned the list yet)")
                             break
                     except Exception:  # noqa
+                        pass
+        if h == "settings_refused_first":
+            # ... and the inverter REFUSES those setting registers (older firmware): the sensor of the same id is
+            # another register and stays readable
+            sens = {x.id_ for x in inv.sensors()}
+            for st_ in list(inv.settings()):
+                if st_.id_ in sens and fam != "ES":
+                    dev.exc_map.append((st_.offset, st_.offset + max(1, (st_.size_ + 1) // 2) - 1, 2))
+                    try:
+                        await inv.read_setting(st_.id_)
+                    except (ValueError, ge.InverterError):
                         pass
         if h == "settings_first":
             # ids that exist both as sensor and as setting (work_mode, battery_modules, ...) are read as SETTING first
